@@ -394,6 +394,53 @@ impl Prop for C01 {
                 },
             ));
         }
+        // (e4) every word the configuration knows, in a few positions
+        {
+            fn walk(j: &serde_json::Value, out: &mut std::collections::BTreeSet<String>) {
+                fn add(s: &str, out: &mut std::collections::BTreeSet<String>) {
+                    for w in s.split_whitespace() {
+                        let plain = !w.is_empty() && w.chars().count() <= 16 && !w.chars().any(|c| "{}[]()\\|?*+^$:<>=\"".contains(c));
+                        if plain {
+                            out.insert(w.to_string());
+                        }
+                    }
+                }
+                match j {
+                    serde_json::Value::String(s) => add(s, out),
+                    serde_json::Value::Array(a) => a.iter().for_each(|x| walk(x, out)),
+                    serde_json::Value::Object(o) => {
+                        for (k, x) in o {
+                            add(k, out);
+                            walk(x, out);
+                        }
+                    }
+                    _ => {}
+                }
+            }
+            let mut set = std::collections::BTreeSet::new();
+            walk(&spec().json, &mut set);
+            let words: Vec<String> = set.into_iter().collect();
+            let nw = words.len();
+            f.push(Family::new(
+                "config-words",
+                Mode::Full,
+                &format!("every plain word that occurs anywhere in config.json ({} words: aliases, word groups, duration / day / month words, unit names, currency codes, symbols and aliases, zone names, format words) in the positions 'W', '5 W', 'W 5', '5 W 3', 'W W', '5 to W', 'x = W' under en and tr: returns normally", nw),
+                move |ch| {
+                    let w = ch.pick(&words).clone();
+                    let lang = *ch.pick(&["en", "tr"]);
+                    let text = match ch.choose(7) {
+                        0 => w.clone(),
+                        1 => format!("5 {}", w),
+                        2 => format!("{} 5", w),
+                        3 => format!("5 {} 3", w),
+                        4 => format!("{} {}", w, w),
+                        5 => format!("5 to {}", w),
+                        _ => format!("x = {}", w),
+                    };
+                    Some(simple(lang, text))
+                },
+            ));
+        }
         // (f) stress shapes
         {
             f.push(Family::new(
